@@ -5,5 +5,6 @@ FUNCTIONS = [
     "uxarray.grid.neighbors._construct_edge_node_distances",
     "uxarray.grid.neighbors._construct_edge_face_distances",
 ]
+STANDINS = ["edge_quantities"]
 ASSUMPTIONS = ["A-TRIG"]
 EXPLANATION = "distance constructors pointwise"
